@@ -101,7 +101,8 @@ func (pp *ppipe) onWriteEvent(we *journal2.WriteEvent) {
 
 func (pp *ppipe) startWorker(src string, srcTags tag.Line, pd *ppDesc) {
 	pp.svc.wwg.Add(1)
-	if pp.svc.closedCtx.Err() == nil && !pd.wCharged && pd.Pos.Less(pd.LastKnwnPos) {
+	// pp.clsCtx ends when the service closes or the pipe is deleted: no worker is started for either
+	if pp.clsCtx.Err() == nil && !pd.wCharged && pd.Pos.Less(pd.LastKnwnPos) {
 		pd.wCharged = true
 		w := newWorker(pp, src, srcTags, pp.tags.Line())
 		go w.run(pp.clsCtx)
